@@ -217,7 +217,13 @@ def run(ctx):
                             redundant_rejected = True
         sites = 0
         bad = None
-        for q in a.ok_paths():
+        # a helper the iteration was moved into (returns the messages) is opened, so that the open-filter is seen
+        # where it is written
+
+        def builds_msgs(e):
+            return "SubMsg" in e.target.locals[0]["ty"] and e.target.locals[0]["ty"].count("Vec<") >= 1
+        shut_paths = splice(ix, a.ok_paths(), builds_msgs)
+        for q in shut_paths:
             for s in model.path_submsgs(ix, q):
                 im = s.inner_msg()
                 mv = ix.msg_variant(im) if im is not None else None
@@ -237,7 +243,7 @@ def run(ctx):
                         bad = bad or q
         # every registered vAMM is visited: observing a closed vAMM must not end the iteration
         stops = None
-        for q in a.ok_paths():
+        for q in shut_paths:
             seen_closed_at = None
             for i, (kind, x) in enumerate(q.items):
                 if kind == "c" and x[1] is False:
